@@ -542,3 +542,22 @@ def must_conds(cfg):
                 inn[i] = acc
                 changed = True
     return {i: (set(v) if v is not None else set()) for i, v in inn.items()}
+
+
+def must_atoms(cfg, node_id, _cache={}):
+    """the must-hold tests at the node, split into atoms in positive form: {(text, bool)} with
+    `x is not None` False given as (`x is None`, True) etc."""
+    import ast as _ast
+    from .symx import atomize
+    key = id(cfg)
+    if key not in _cache:
+        _cache.clear()
+        _cache[key] = must_conds(cfg)
+    out = set()
+    for t, b in _cache[key].get(node_id, set()):
+        try:
+            e = _ast.parse(t, mode='eval').body
+        except SyntaxError:
+            continue
+        out |= set(atomize(e, b))
+    return out
